@@ -171,6 +171,15 @@ class Acceptor:
             return True
         if tp is None or tp is type(None):
             return v is None
+        if self.fw in ("pydantic", "sqlmodel") and type(v) is str and tp in (int, float, bool):
+            # these frameworks annotate string pseudo-types with their actual type and parse the string
+            from json_to_models.dynamic_typing import BooleanString, FloatString, IntString
+            cls = {int: IntString, float: FloatString, bool: BooleanString}[tp]
+            try:
+                cls.to_internal_value(v)
+            except ValueError:
+                return False
+            return True
         if tp is int:
             return type(v) is int
         if tp is float:
@@ -182,7 +191,12 @@ class Acceptor:
         origin = typing.get_origin(tp)
         args = typing.get_args(tp)
         if origin is typing.Union:
-            return any(self.accepts(a, v, path) for a in args)
+            mark = len(self.problems)
+            for a in args:
+                if self.accepts(a, v, path):
+                    del self.problems[mark:]      # explanations of the members that did not match are irrelevant
+                    return True
+            return False
         if origin is list:
             return type(v) is list and all(self.accepts(args[0], x, path + "[]") for x in v)
         if origin is dict:
@@ -240,6 +254,8 @@ class Acceptor:
                 self.problems.append(f"{path}.{k}: value {x!r} not in {hs[names[0]]!r}")
                 ok = False
         for name, (key, has_default, _) in table.items():
+            if self.fw == "base" and type(None) in typing.get_args(hs[name]):
+                continue     # the plain generator emits annotations only: Optional[...] marks what may be absent
             if not has_default and name not in used:
                 self.problems.append(f"{path}: required field {name} of {q} absent")
                 ok = False
@@ -248,8 +264,9 @@ class Acceptor:
 
 def pydantic_parse(ns, root_name, sample):
     """`Root.parse_obj(sample)` after `update_forward_refs` with enclosing namespaces"""
+    top = {k: v for k, v in ns.items() if isclass(v)}      # module globals (the module object itself is gone)
     for q, cls, chain in collect_classes(ns):
-        cls.update_forward_refs(**local_ns(chain, cls))
+        cls.update_forward_refs(**{**top, **local_ns(chain, cls)})
     return ns[root_name].parse_obj(copy.deepcopy(sample))
 
 
